@@ -38,8 +38,18 @@ def run(ctx, model_ok):
                             "`rotfrom` rows of the correspondence stream on the octahedral group; everything else of the six entry points (argument class -> scalar / vector input, "
                             "degree flag, sequence check, multi-axis composition order, refused arguments leave the state) is modelled (Model/RotFrom.lean) and proved "
                             "(rotate_from_any_eq_rotate, entry_points_share_start_semantics, paths_equal_length_always)",
-                            "rotate_from_euler with a 1-D array of n != 1 angles for a one-letter sequence (the docstring's `shape (n,)`, its own example `(15,30,45), 'z'`) is refused by "
-                            "the pinned scipy 1.18.1 (ValueError from Rotation.from_euler); the model follows the pinned behaviour (Entry.shape = none), the stream samples it",
+                            "rotate_from_euler with a 1-D array of n angles for a one-letter sequence (the docstring's `shape (n,)`, its own example `(15,30,45), 'z'`): the pinned "
+                            "scipy 1.18.1 alone refuses n != 1 (ValueError from Rotation.from_euler); since repo fix 96c592d magpylib reshapes such input to (n, 1) before scipy sees it, and "
+                            "the model follows THAT (eulerRows: `.arr1` with a one-letter sequence = vector input of n, Entry.shape = some (false, n)); the stream samples it (`euler:arr1:w1:*` rows) "
+                            "[audit2: the earlier text here still described the pre-fix behaviour (Entry.shape = none)]",
+                            "audit2: rotate_from_any_eq_rotate (first conjunct) and the window conjunct of entry_points_share_start_semantics hold BY DEFINITION of the model (`Node.hstep` of "
+                            "`.rotFrom` is `Node.step (rotFromOp ..)`, `rotWindow` only reads (isScalar, length)); its third conjunct is rotate_refines_spec applied to the converted rotation. "
+                            "That the REAL six entry points are `rotate` after the conversion, with these shape classes, is what the `rotfrom` / `angax` rows of the `path` stream compare. "
+                            "'The equivalent rotation' is specified only as far as angax_rotvec_spec (angle/axis -> rotation vectors) and euler_composition_order (order of a multi-axis "
+                            "sequence) go; the conversion of ONE parameter set is the parameter `sc`, and the closed forms the driver puts in its place (Rodrigues, quatMatrix, mrpQuat, det3) "
+                            "are compared with scipy on the 24 octahedral rotations only (exact after snapping), never on a general rotation",
+                            "audit2: rotate_refines_spec / angax_refines_spec / entry_points_share_start_semantics ('composes on the left, moves the position about the anchor') are for "
+                            "parentPath = none, i.e. a top-level object or the collection's OWN object; a child rotated through its collection (parent_path branch) is C10",
                             "rotate_from_angax in IEEE double: a non-zero axis whose norm underflows to 0 (|axis| < ~1.5e-162) or a NaN angle/axis passes the validators, "
                             "gives NaN rotation vectors, raises scipy's ValueError and leaves NaN positions when an anchor is given (exact arithmetic: norm > 0 is proved)",
                             "the common length of a history in closed form (history_common_length, `histLen`) is proved for trees whose members share one path length and histories whose "
